@@ -41,8 +41,10 @@ func (w *waitGroup[T]) Add(elements ...T) {
 
 	// then add the elements (and correct the counter if the elements are already present)
 	for _, element := range elements {
-		if !w.pendingElements.Add(element) {
-			w.pendingElementsCounter.Add(-1)
+		// the correction can be the decrement that brings the counter to zero (if the last pending element was
+		// marked as done in the meantime)
+		if !w.pendingElements.Add(element) && w.pendingElementsCounter.Add(-1) == 0 {
+			w.Trigger()
 		}
 	}
 }
